@@ -276,13 +276,6 @@ def hitOp (d : Nat) (ops : List Op) (i : Nat) : Prop :=
 instance (d : Nat) (ops : List Op) (i : Nat) : Decidable (hitOp d ops i) := by
   unfold hitOp; infer_instance
 
-/-- no call made from inside during the history `outs` places `x` (a fact about what happened) -/
-def NoFlyPlaces (env : Env) (x : AItem Cb) (outs : List Out) : Prop :=
-  ∀ o ∈ outs, ∀ c ∈ flyOps env o, x ∉ Spec.TdmaSched.placed c
-
-instance (env : Env) (x : AItem Cb) (outs : List Out) : Decidable (NoFlyPlaces env x outs) := by
-  unfold NoFlyPlaces; infer_instance
-
 /-- a sufficient static condition for `NoFlyPlaces`: no script of the environment places `x` -/
 theorem noFlyPlaces_of_scripts (env : Env) (x : AItem Cb)
     (h : ∀ e ∈ env.scripts, ∀ c ∈ e.2, x ∉ Spec.TdmaSched.placed (absCall c)) (outs : List Out) :
@@ -297,19 +290,6 @@ theorem noFlyPlaces_of_scripts (env : Env) (x : AItem Cb)
     obtain ⟨e, he, hce⟩ := scriptOf_mem env id c0 hc0
     exact h e he c0 hce
   · simp at hy
-
-theorem placed_ne_ops (x : AItem Cb) (ops : List Op)
-    (hother : ∀ op ∈ ops, x ∉ Spec.TdmaSched.placed (absOp op)) :
-    ∀ op ∈ ops, ∀ it ∈ Spec.TdmaSched.placed (absOp op), it ≠ x := by
-  intro op hop it hit hx
-  subst hx
-  exact hother op hop hit
-
-theorem placed_ne_fly (env : Env) (x : AItem Cb) (outs : List Out) (h : NoFlyPlaces env x outs) :
-    ∀ o ∈ outs, ∀ c ∈ flyOps env o, ∀ it ∈ Spec.TdmaSched.placed c, it ≠ x := by
-  intro o ho c hc it hit hx
-  subst hx
-  exact h o ho c hc hit
 
 /-- **Ring statement** (no discipline assumed).  An item `x` that is pending exactly once, in the frame
 due in `d < 25`, runs — in any history of admissible operations without `reset` in which neither an
